@@ -252,12 +252,14 @@ def sel_has(sel, tag):
     return tag in sel
 
 
-def sel_py(sel):
+def sel_py(sel, aslist=False):
+    """the Python argument for a selector; a set of classes is passed as a tuple or — the
+    documentation of filter_exceptions / peek allows it — as a list"""
     if sel == 'none':
         return None
     if sel == 'all':
         return Exception
-    return tuple(TAGS[t] for t in sel)
+    return [TAGS[t] for t in sel] if aslist else tuple(TAGS[t] for t in sel)
 
 
 def sel_show(sel):
@@ -489,9 +491,15 @@ def build(ops, src, prints):
         elif k == 'filter':
             s.filter(make_fn(op[1]))
         elif k == 'filterExc':
-            s.filter_exceptions(sel_py(op[1]), sel_py(op[2]))
+            aslist = len(op) > 3 and op[3]
+            s.filter_exceptions(sel_py(op[1], aslist), sel_py(op[2], aslist))
         elif k == 'peek':
-            s.peek(print_func=prints.append, interval=op[1])
+            kind = op[2] if len(op) > 2 else 'default'
+            if kind == 'default':
+                s.peek(print_func=prints.append, interval=op[1])
+            else:
+                s.peek(print_func=prints.append, interval=op[1],
+                       exc_types={'none': None, 'empty': [], 'list': [T0, T2], 'tuple': (T1, T3)}[kind])
         elif k == 'head':
             s.head(op[1])
         elif k == 'tail':
@@ -673,6 +681,16 @@ def run_case(case):
     return res
 
 
+def uses_list_exc_types(case):
+    """scenario class of F24: exception classes handed to filter_exceptions / peek as a list"""
+    for op in case['ops']:
+        if op[0] == 'filterExc' and len(op) > 3 and op[3] and (isinstance(op[1], list) or isinstance(op[2], list)):
+            return True
+        if op[0] == 'peek' and len(op) > 2 and op[2] in ('empty', 'list'):
+            return True
+    return False
+
+
 def nontrivial(case, res):
     return len(case['ops']) >= 2 and len(case['vals']) >= 1
 
@@ -785,9 +803,9 @@ def gen_ops(rng, ty, nops, ln, big, allow_small_buffer):
         elif c == 'filter':
             ops.append(['filter', rng.choice(['isEven', 'mod:3', 'mod:2', 'ident', 'add:-2', 'raiseIfMul:5:1'])])
         elif c == 'filterExc':
-            ops.append(['filterExc', rng.choice(SELS), rng.choice(SELS)])
+            ops.append(['filterExc', rng.choice(SELS), rng.choice(SELS), rng.random() < 0.3])
         elif c == 'peek':
-            ops.append(['peek', rng.choice([1, 2, 3])])
+            ops.append(['peek', rng.choice([1, 2, 3]), rng.choice(['default', 'default', 'none', 'empty', 'list', 'tuple'])])
         elif c in ('head', 'tail'):
             ops.append([c, _small(rng, ln, big)])
         elif c == 'batch':
@@ -915,6 +933,9 @@ def corpus():
         dict(vals=r, err=None, ops=[['parmap', 'raiseIfMul:3:0', 1, False, True], ['peek', 2]], ks=[3]),
         dict(vals=r, err=None, ops=[['buffer', 1]], ks=[]),
         dict(vals=[], err=[0, 0], ops=[['tail', 1], ['batch', 2]], ks=[0, 1]),
+        dict(vals=[1, {'e': [0, 3]}, 2], err=None, ops=[['filterExc', [], [1], True]], ks=[]),
+        dict(vals=[1, {'e': [0, 3]}, 2], err=None, ops=[['filterExc', [0], 'none', True]], ks=[1]),
+        dict(vals=[1, {'e': [0, 3]}, 2], err=None, ops=[['peek', 5, 'list']], ks=[]),
         dict(vals=[1, 2, 3], err=None, ops=[['accumulate', 'add', None]], ks=[], again=True),
         dict(vals=r, err=None, ops=[['accumulate', 'max', [3]], ['batch', 2], ['shuffle', 2, [1], [0, 1]]], ks=[], again=True),
     ]
